@@ -325,6 +325,14 @@ def directed_cases(ck):
                 w["frame"]["range"]["start"] = None if s is None else {"kind": {"Literal": {"Integer": s}}, "span": None}
                 w["frame"]["range"]["end"] = None if e is None else {"kind": {"Literal": {"Integer": e}}, "span": None}
             add("fixed:N5:rq", "json_rq", json.dumps(d), target="sql.generic", prog="from t | window rows:-1..1 (derive {s = sum b})")
+    # C12-N18 (open): an Aggregate partitioned by its own aggregated columns
+    a5 = harness("rq", [{"src": "from t | aggregate {n = count this, c = count_distinct a}"}])[0]
+    if "ok" in a5:
+        d = copy.deepcopy(a5["ok"])
+        for tr in d["relation"]["kind"]["Pipeline"]:
+            if "Aggregate" in tr:
+                tr["Aggregate"]["partition"] = list(tr["Aggregate"]["compute"])
+        add("N18:agg-cycle", "json_rq", json.dumps(d), target="sql.generic")
     # C12-N6 (79f4a51): ids of usize::MAX
     b5 = harness("rq", [{"src": "from t | take 5"}])[0]
     if "ok" in b5:
